@@ -571,7 +571,9 @@ def run(ck):
                     fail_case({"clause": "points outside the requested pressure limits influence the result"}, {"limits": lim, "extra_points": extra.tolist()})
             except Exception as e:  # noqa
                 fail_case({"clause": "points outside the requested pressure limits influence the result", "how": "refused: " + type(e).__name__}, {"limits": lim, "extra_points": extra.tolist(), "error": str(e)[:200]})
-        for bad in ([kp[-1] * 1.5], [-1e-3], [kp[-1] * 1.0001]):
+        # (round 6, C18-m11: an interpolator that extrapolates + a range test with an upper bound only: -1e-3 still failed by accident,
+        # a near-vacuum offset of -1e-7 ... -1e-5 was fitted on extrapolated kernel values)
+        for bad in ([kp[-1] * 1.5], [-1e-3], [kp[-1] * 1.0001], [-1e-5], [-1e-7], [-10 ** rng.uniform(-9, -2)], [-1e-7, kp[-1] * 1.01]):
             pressure = np.array(sorted([float(kp[3]), float(kp[10]), float(kp[20])] + bad))
             ck.count(("outside", bad[0]), bucket="outside kernel range")
             try:
@@ -582,7 +584,7 @@ def run(ck):
             except Exception as e:  # noqa
                 fail_case({"clause": "pressure outside the kernel range gives a non-pyGAPS error", "error": type(e).__name__}, {"pressure": pressure.tolist(), "error": repr(e)[:300]})
         for path_, top in ((user_path, up[-1]), (user_path2, up2[-1])):
-            pressure = np.array([top * 0.1, top * 0.5, top * 0.9, top * 1.2])
+            pressure = np.array([top * 0.1, top * 0.5, top * 0.9, top * 1.2]) if rng.random() < 0.5 else np.array([-top * 10 ** rng.uniform(-7, -3), top * 0.3, top * 0.6, top * 0.9])
             ck.count(("outside-user", path_), bucket="outside kernel range (user kernels with the same file name)")
             try:
                 pk.psd_dft_kernel_fit(pressure, np.linspace(1, 2, 4), path_, bspline_order=0)
